@@ -193,7 +193,8 @@ def case_key(features: dict, signature: str):
     """Identity of one failing input of the enumerated operation universe: operation, naming mode, what fails."""
     if not features.get("op_id"):
         return None
-    return f"{features['op_id']}|{'nosnake' if 'nosnake' in str(features.get('variant', '')) else 'snake'}|{signature}"
+    return (f"{features['op_id']}|{'nosnake' if 'nosnake' in str(features.get('variant', '')) else 'snake'}|{signature}"
+            + (f"|{features['pair']}" if features.get("pair") else "")).replace(" ", "")
 
 
 def _cases_of(f):
